@@ -209,7 +209,8 @@ def zip_tasks(tier, role):
             dict(nl=2, nr=1, iters=1, max_len=[1], timed=False),
             dict(nl=1, nr=1, iters=1, max_len=2, timed=True)]
     if tier != 'quick':
-        cfgs += [dict(nl=2, nr=2, iters=2, max_len=[2, 1], timed=False),
+        cfgs += [dict(nl=2, nr=2, iters=1, max_len=[1], timed=False),
+                 dict(nl=2, nr=1, iters=1, max_len=[2], timed=False),
                  dict(nl=1, nr=1, iters=2, max_len=[3, 2], timed=True)]
     ts = []
     for c in cfgs:
@@ -283,7 +284,7 @@ def cache_tasks(tier, role):
             dict(nl=1, nr=2, rounds=2, max_len=[1, 1], cached='right'),
             dict(nl=1, nr=1, rounds=2, max_len=[2, 1], cached='left')]
     if tier != 'quick':
-        cfgs += [dict(nl=2, nr=2, rounds=2, max_len=[2, 1], cached='right'),
+        cfgs += [dict(nl=2, nr=1, rounds=2, max_len=[1, 1], cached='right'),
                  dict(nl=1, nr=1, rounds=3, max_len=[2, 2, 1], cached='left')]
     ts = []
     for c in cfgs:
